@@ -50,6 +50,14 @@ CLAIMS["C19"] = dict(
     text="Record-level deductive proof for XY family, Shape2d, BoundingBox, GeoBox, Tiles, GeoboxTiles (fields symbolic, CRS concrete): == is reflexive/symmetric/transitive, equal hashable objects have equal hashes (hash = uninterpreted function of exactly the compared fields), objects sharing a dask token are equal and equal objects share theirs. CRS: structural obligations on the source -- the CRS cache is a plain dict that nothing ever evicts from, every CRS._crs is a value held by it, the transformer cache key is (id(a._crs), id(b._crs), always_xy) -- so a cached transformer always converts between exactly the two systems; __ne__ is not __eq__; CRS never equals None.",
     note="Geometry equality/pickling (shapely) and GridSpec's default dask token are NOT decided; CRS equality/hash/token across construction routes and histories involve concrete pyproj objects: BOUNDED native catalogue (4 CRSs x 8 routes; 40 histories in fresh interpreters), with two recorded KNOWN FINDINGS (hash by spelling; cache-key collision / history dependence)",
     technique=TECH + "; structural (AST) obligations for the cache lifetime invariant", design_ref="DESIGN.md §2 C19")
+CLAIMS["C03"] = dict(
+    text="Deductive proof for same-CRS pairs related by scale+translation: compute_axis_overlap / box_overlap keep both regions inside their images and never drop a destination pixel whose centre maps inside the source (ghost pixel, all sizes, any real scale != 0 and shift); _pick_read_scale is a positive integer, exact (1 below 1, nearest integer within tol, else floor); compute_reproject_roi for exact integer scale k in {1..5} x either orientation x any shift x any invertible source grid: read_shrink == k, regions inside the images (source up to the next multiple of k), no needed pixel dropped; native_pix_transform is inv(dst)*src.",
+    note="the sampled path (rotation, fractional scale, sub-pixel shift beyond ttol, other CRS: numpy float32 boundary sampling, roi_from_points, pyproj) is NOT proved: assumed stub + BOUNDED native brute force over every destination pixel of 100 pairs incl. 16 cross-CRS; get_scale_from_linear_transform (Cholesky) assumed for axis-aligned input + bounded; 'scale at the centre of the overlap' for non-linear transforms (lstsq) not decided; symbolic k is non-linear for both solvers, hence the enumeration",
+    technique=TECH, design_ref="DESIGN.md §2 C03")
+CLAIMS["C10"] = dict(
+    text="Deductive proof against the nearest-neighbour specification NN(d) = floor(A(d+1/2)): _can_paste reports paste-ability only for no rotation/shear (>= 1e-10), integer scale within stol, both axes within stol of it and whole-pixel shift within ttol; with read_shrink == 1 and the ACTUAL unsnapped transform (scale exactly +-1, |residue| < ttol <= 1/4): d in roi_dst <=> NN(d) inside the source, NN(d) = the pixel at the same (mirrored) offset in roi_src, equal sizes -- i.e. the copy is the warp; with read_shrink = k in {2..5}: roi_src is roi_dst scaled by k.",
+    note="GDAL's nearest resampling is ASSUMED to compute NN; near-integer scales k(1+delta) within stol are accepted by the code but excluded from the NN clause (drift delta*d exceeds half a pixel on images wider than 1/(2 delta)); pixel types (int8/bool detours in warp.py) are numpy/GDAL and not decided",
+    technique=TECH, design_ref="DESIGN.md §2 C10")
 NA = {
     "C09": "xarray object-model behaviour (coords/attrs/encoding propagation); no contract within reach can state it - see DESIGN.md C09",
     "C13": "equality of GDAL warps (whole vs chunked) and dask scheduling; no contract within reach - see DESIGN.md C13",
